@@ -307,11 +307,20 @@ def ground_axioms(exprs):
             if f.get_id() not in seen:
                 seen.add(f.get_id())
                 ax.append(f)
-    base = list(exprs) + ax
-    for f in forall_elim_facts(base):
-        if f.get_id() not in seen:
-            seen.add(f.get_id())
-            ax.append(f)
+    for _round in range(2):     # elimination instances may expose further All_ facts (nested collections)
+        base = list(exprs) + ax
+        new = 0
+        for f in forall_elim_facts(base):
+            if f.get_id() not in seen:
+                seen.add(f.get_id())
+                ax.append(f)
+                new += 1
+                for g in _axioms_for(f):
+                    if g.get_id() not in seen:
+                        seen.add(g.get_id())
+                        ax.append(g)
+        if not new:
+            break
     return ax + interned_axioms()
 
 
